@@ -24,7 +24,12 @@ LEVEL_TEXT = ("Proof (kernel-checked, all inputs): the number test's quantiles a
               "record with the Lean model run at Float, plus a direct oracle recomputing every statistic from the "
               "definitions without NumPy.")
 LEVEL_NOTE = ("The theorems are over the reals; rounding of log/log10/loggamma and of float sums is not modelled (compared to "
-              "1e-9). numpy.random.choice / numpy.histogram draws of the resampled tests are recorded and fed to the model. "
+              "1e-9). numpy.random.choice / numpy.histogram draws of the resampled tests are recorded and fed to the model; "
+              "the resampling step itself (probs = union/N_u, inverse-CDF search, bin centres, numpy.histogram) is modelled "
+              "in Soft64 with the uniform numbers as input (Model/Resample.lean: count conservation and support proved for "
+              "every uniform sequence) and compared bit-for-bit with the recorded draws as a statistic (extra.resample_layer); "
+              "the verdicts on the draws are property-level: N_obs events each, J of them, support inside the union "
+              "histogram, bin totals within a 1e-12 two-sided binomial tail of N_obs*J*Lambda_U(k)/N_U. "
               "The KS p-value of calibration_test is scipy's and is not modelled (the KS distance and the skip rule are).")
 DESIGN_REF = "DESIGN.md §4 C10"
 TECHNIQUE = "Lean 4 model generic over RealOps (Float driver / real-number theorems) + differential correspondence + oracle"
@@ -37,6 +42,10 @@ THEOREMS = [
     "CatEvals.pl_dist_eq_doc", "CatEvals.undersampled_iff_unsampled_cell", "CatEvals.calibration_skips_notvalid",
     "CatEvals.spatial_sentinel_iff_notValid", "CatEvals.ntest_counts_all_events",
     "CatEvals.mag_tests_ignore_out_of_range", "CatEvals.mag_tests_out_zero", "CatEvals.empty_obs_signalled_out",
+    # Properties/C10_Resample.lean: the resampling step (probs, inverse-CDF choice, bin centres, numpy.histogram)
+    "CatEvals.resample_is_bincount", "CatEvals.resampleProbs_valid", "CatEvals.choiceIdx_in_range",
+    "CatEvals.resample_count_conserved", "CatEvals.resample_never_from_empty_bin", "CatEvals.rm_stat_eq_doc_resampled",
+    "CatEvals.binCount_sum", "CatEvals.centresOK_spec", "CatEvals.pl_notvalid_branch_unreachable",
 ]
 TRUSTED = ["Lean 4.33 kernel", "axioms: propext, Classical.choice, Quot.sound at most",
            "Real.log / an abstract loggamma stand for numpy.log, numpy.log10 (= log/log 10) and scipy.special.loggamma; "
@@ -58,6 +67,9 @@ RULE = ("catalog forecasts of 1..30 synthetic catalogs (each empty with a per-ca
         "longitude with a string or a list, truncation of catalog.catalog, replaced list entries; all or some catalogs), "
         "then the tests: every result must be that of the catalogs as they are now (of the file for store=False); "
         "all six tests in random order on the same forecast object + calibration_test on the results; "
+        "default arguments (verbose=True, no seed) in a quarter / a seventh of the cases; magnitude edges with float noise "
+        "(4.95 + k*0.1) and events at the decimal number next to an edge (12 % of the cases); resampled catalogs: N_obs events, "
+        "support inside the union histogram, pooled bin totals within a 1e-12 binomial tail; "
         "non-trivial = at least one test returned status normal/undersampled with a non-empty distribution; distinct by "
         "(region sizes, all count matrices, mode)")
 
@@ -128,6 +140,12 @@ def gen_case(rng, tier):
     C = rng.choice([1, 1, 2, 2, 3, 4, 5, 6, 8, 10, 12, 16, 20, 25, 30, 40])
     K = rng.choice([1, 2, 2, 3, 3, 4, 5, 6])
     J = rng.choice([1, 1, 2, 2, 3, 4, 5, 7, 10, 15, 20, 30])
+    # magnitude edges that carry floating-point noise (4.95 + k*0.1 = 5.3500000000000005, as numpy.arange gives them) with
+    # events whose magnitude is the decimal number next to an edge (5.35): inside the round-off band the library's
+    # binning (bin1d_vec) counts them in the bin that edge opens, a raw comparison with the edge would not
+    noisy = rng.random() < 0.12
+    if noisy:
+        K = rng.choice([5, 6, 6])
     W = rng.randint(1, max(1, int(math.isqrt(C)) + 3))
     H = (C + W - 1) // W + rng.randint(0, 2)
     cells = rng.sample([(ix, iy) for ix in range(W) for iy in range(H)], C)
@@ -136,6 +154,8 @@ def gen_case(rng, tier):
     dh = rng.choice([1.0, 0.5, 0.25, 0.1])
     x0, y0 = rng.choice([0.0, -120.0, 10.0, -3.5]), rng.choice([0.0, 30.0, -5.0, 41.5])
     m0, dm = rng.choice([1.0, 2.5, 4.95, 5.0]), rng.choice([0.1, 0.5, 1.0, 0.2])
+    if noisy:
+        m0, dm = 4.95, rng.choice([0.1, 0.2])
     # cells the forecast may sample; the others are never sampled
     n_sampled = rng.randint(1, C) if rng.random() < 0.7 else C
     sampled = rng.sample(range(C), n_sampled)
@@ -148,7 +168,7 @@ def gen_case(rng, tier):
         cs = rng.choices(cell_pool, weights=weights, k=n)
         ks = rng.choices(range(K), weights=bw, k=n)
         return [(c, k, rng.choice([0.25, 0.5, 0.75, 0.375]), rng.choice([0.25, 0.5, 0.75, 0.625]),
-                 rng.choice([0.25, 0.5, 0.75])) for c, k in zip(cs, ks)]
+                 rng.choice([0.25, 0.5, 0.75, 0.0, 0.0] if noisy else [0.25, 0.5, 0.75])) for c, k in zip(cs, ks)]
 
     sims = []
     for _ in range(J):
@@ -188,6 +208,12 @@ def gen_case(rng, tier):
                 cat_region=rng.random() < 0.5, gap_empty=rng.random() < 0.5, top_open=rng.random() < 0.3,
                 order=rng.sample(["n", "s", "m", "pl", "rm", "mll", "mllfull"], 7),
                 seed=rng.choice([0, 1, 2, 12345, rng.randrange(2 ** 31)]), both_modes=rng.random() < 0.3)
+    if noisy:
+        case["noisy_edges"] = True
+    # default arguments of the tests: verbose=True (progress lines of N / S / M / PL) and seed=None (the resampled tests
+    # then continue the global numpy stream, which the harness seeds itself with `seed` right before the call)
+    case["verbose"] = rng.random() < 0.25
+    case["seed_arg"] = rng.random() >= 0.15
     # (a) the observation was not cut at the minimum magnitude: further events below region.magnitudes[0]
     if rng.random() < 0.22:
         all_below = rng.random() < 0.15 and "obs-all-below-min-magnitude" not in AWAITING_DECISION
@@ -228,6 +254,22 @@ def premut_chosen(pm, J):
     return idx if pm["subset"] == "all" else (idx[::2] if pm["subset"] == "even" else idx[:1])
 
 
+def edge_of(case, k):
+    """magnitude edge k of the case's region (build_region)"""
+    return case["m0"] + k * case["dm"] if case.get("noisy_edges") else round(case["m0"] + k * case["dm"], 4)
+
+
+def raw_magnitude(case, e):
+    """the magnitude event e gets (event_rows)"""
+    k, fm = e[1], e[4]
+    mag = edge_of(case, k) + case["dm"] * fm
+    if fm == 0.0:
+        mag = round(edge_of(case, k), 4)
+    if k == case["K"] - 1 and case["top_open"]:
+        mag += 3 * case["dm"]
+    return mag
+
+
 def effective_sims(case, mode):
     """the synthetic catalogs as they are when the tests run (harness's own bookkeeping of the in-place changes)"""
     pm = case.get("premut")
@@ -237,7 +279,9 @@ def effective_sims(case, mode):
     for j in premut_chosen(pm, len(out)):
         evs = out[j]
         if pm["mut"] in ("filter-mag", "filter-mag-list"):
-            out[j] = [e for e in evs if e[1] >= pm["k0"]]
+            # catalog.filter compares the RAW magnitude with the edge value (an event at the decimal number just below a
+            # noisy edge belongs to that edge's bin but does not pass "magnitude >= edge")
+            out[j] = [e for e in evs if raw_magnitude(case, e) >= edge_of(case, pm["k0"])]
         elif pm["mut"] == "filter-lon":
             out[j] = [e for e in evs if case["cells"][e[0]][0] >= pm["ix0"]]
         elif pm["mut"] == "truncate":
@@ -270,7 +314,10 @@ def build_region(case):
     from csep.core.regions import CartesianGrid2D
     dh = case["dh"]
     origins = numpy.array([[case["x0"] + ix * dh, case["y0"] + iy * dh] for ix, iy in case["cells"]])
-    mags = numpy.array([round(case["m0"] + k * case["dm"], 4) for k in range(case["K"])])
+    if case.get("noisy_edges"):
+        mags = numpy.array([case["m0"] + k * case["dm"] for k in range(case["K"])])
+    else:
+        mags = numpy.array([round(case["m0"] + k * case["dm"], 4) for k in range(case["K"])])
     return CartesianGrid2D.from_origins(origins, dh=dh, magnitudes=mags), origins, mags
 
 
@@ -282,6 +329,8 @@ def event_rows(case, origins, mags, events):
         lon = float(origins[c][0]) + case["dh"] * fx
         lat = float(origins[c][1]) + case["dh"] * fy
         mag = float(mags[k]) + case["dm"] * fm
+        if fm == 0.0:
+            mag = round(float(mags[k]), 4)          # the decimal number at the edge (inside the round-off band)
         if k == K - 1 and case["top_open"]:
             mag += 3 * case["dm"]      # the top bin is open-ended
         rows.append((lon, lat, mag))
@@ -422,30 +471,34 @@ def run_impl(case, mode, tmpdir):
             out[t] = ("error", "skipped-empty-union", "")
             draws[t] = rec
             continue
+        vb = bool(case.get("verbose"))
+        skw = dict(seed=case["seed"]) if case.get("seed_arg", True) else {}
+        if not skw:
+            numpy.random.seed(case["seed"])
         try:
             with quiet(), record_choice(rec):
                 if t == "n":
-                    r = ce.number_test(fc, obs, verbose=False)
+                    r = ce.number_test(fc, obs, verbose=vb)
                     res = dict(status=r.status, observed=int(r.observed_statistic),
                                quantile=[float(r.quantile[0]), float(r.quantile[1])],
                                dist=[int(x) for x in r.test_distribution])
                 elif t == "s":
-                    r = ce.spatial_test(fc, obs, verbose=False)
+                    r = ce.spatial_test(fc, obs, verbose=vb)
                     res = canon_result(r)
                 elif t == "m":
-                    r = ce.magnitude_test(fc, obs, verbose=False)
+                    r = ce.magnitude_test(fc, obs, verbose=vb)
                     res = canon_result(r)
                 elif t == "pl":
-                    r = ce.pseudolikelihood_test(fc, obs, verbose=False)
+                    r = ce.pseudolikelihood_test(fc, obs, verbose=vb)
                     res = canon_result(r)
                 elif t == "rm":
-                    r = ce.resampled_magnitude_test(fc, obs, verbose=False, seed=case["seed"])
+                    r = ce.resampled_magnitude_test(fc, obs, verbose=vb, **skw)
                     res = canon_result(r)
                 elif t == "mll":
-                    r = ce.MLL_magnitude_test(fc, obs, verbose=False, seed=case["seed"])
+                    r = ce.MLL_magnitude_test(fc, obs, verbose=vb, **skw)
                     res = canon_result(r)
                 else:
-                    r = ce.MLL_magnitude_test(fc, obs, full_calculation=True, verbose=False, seed=case["seed"])
+                    r = ce.MLL_magnitude_test(fc, obs, full_calculation=True, verbose=vb, **skw)
                     res = canon_result(r)
             raw[t] = r
             out[t] = res
@@ -659,7 +712,39 @@ def oracle(case, out, draws_h, rates):
             bad.append(f"{t}: observed {r['observed']!r} != documented {want_o!r}")
         chk_dist(t, r["dist"], want_d)
         chk_quant(t, r)
+        if t in ("rm", "mll", "mllfull") and draws_h[t] and not (t == "mllfull" and case.get("noisy_edges")):
+            # (full_calculation draws raw magnitudes and numpy.histogram compares them with the raw edges: an event inside
+            # the round-off band below an edge is then counted one bin lower than in the union histogram)
+            # "resampling from the union histogram": never an event in a bin the union histogram leaves empty, and the
+            # pooled bin totals are Binomial(J*N_obs, Lambda_U(k)/N_U) (two-sided tail below 1e-12 = not that law)
+            M = sum(sum(h) for h in draws_h[t])
+            for k in range(K):
+                T = sum(h[k] for h in draws_h[t])
+                if mg_u[k] == 0:
+                    if T:
+                        bad.append(f"{t}: {T} resampled event(s) in magnitude bin {k} where the union histogram is empty")
+                    continue
+                tail = binom_two_sided(M, mg_u[k] / NU, T)
+                if tail < 1e-12:
+                    bad.append(f"{t}: {T} of {M} resampled events in bin {k}, union probability {mg_u[k]}/{NU}: "
+                               f"binomial tail {tail:.1e} (not resampled from the union histogram)")
     return bad
+
+
+def binom_two_sided(M, p, T):
+    """min(P(X <= T), P(X >= T)) for X ~ Binomial(M, p); 1.0 when T is within 5 standard deviations (not computed)"""
+    if p >= 1.0:
+        return 1.0 if T == M else 0.0
+    mu, sd = M * p, math.sqrt(M * p * (1 - p))
+    if abs(T - mu) <= 5 * sd + 1:
+        return 1.0
+    lp, lq = math.log(p), math.log1p(-p)
+
+    def pmf(i):
+        return math.exp(math.lgamma(M + 1) - math.lgamma(i + 1) - math.lgamma(M - i + 1) + i * lp + (M - i) * lq)
+    if T < mu:
+        return math.fsum(pmf(i) for i in range(0, T + 1))
+    return math.fsum(pmf(i) for i in range(T, M + 1))
 
 
 # ----------------------------------------------------------------------------- model side
@@ -737,6 +822,32 @@ def queue_model(drv, case, draws_h):
     return idx
 
 
+def queue_resample(run, drv, pending, case, out, draws_h, mags):
+    """Soft64 model of the resampling step (Model/Resample.lean) on the uniform numbers the legacy global RandomState
+    yields after `numpy.random.seed(seed)`: J times `random_sample(N_obs)`.  Bit-for-bit agreement with the recorded
+    draws is a STATISTIC of how tightly the present code is modelled (a rewrite that draws differently but still from
+    the union histogram is judged by the property-level oracle, not by this)."""
+    K, J = case["K"], len(case["sims"])
+    Nobs = len(case["obs"])
+    NU = sum(len(s) for s in case["sims"])
+    if Nobs == 0 or NU == 0 or J * Nobs > 300:
+        return
+    mg_u = [0] * K
+    for sm in case["sims"]:
+        for e in sm:
+            mg_u[e[1]] += 1
+    mtxt = ",".join(f"{Fraction(float(m)).numerator}/{Fraction(float(m)).denominator}" for m in mags)
+    for t in ("rm", "mll"):
+        r = out.get(t)
+        if not isinstance(r, dict) or len(draws_h.get(t, [])) != J:
+            continue
+        rs = numpy.random.RandomState(case["seed"])
+        us = [rs.random_sample(Nobs) for _ in range(J)]
+        utxt = ";".join(",".join(f"{int(u * 2 ** 53)}/9007199254740992" for u in row) for row in us)
+        i = drv.ask(f"c10_resample {mtxt} {','.join(map(str, mg_u))} {utxt}")
+        pending.append(("resample", dict(case, test=t), i, draws_h[t]))
+
+
 # ----------------------------------------------------------------------------- calibration test
 def ks_exact(qs):
     s = sorted(qs)
@@ -810,6 +921,8 @@ def check_case(run, drv, pending, case):
              key if nontriv else None)
     run.count("obs:" + case["kind"])
     run.count("mode:" + case["mode"])
+    if case.get("noisy_edges"):
+        run.count("noisy-magnitude-edges")
     if pm:
         changed = [len(a) for a in case["sims"]] != [len(a) for a in full_case["sims"]]
         run.count(f"premut:{pm['mut']}:{pm['where']}:{case['mode']}" + (":sizes-changed" if changed else ""))
@@ -841,12 +954,28 @@ def check_case(run, drv, pending, case):
         run.count("both-modes")
     idx = queue_model(drv, case, draws_h)
     pending.append(("case", case, idx, out, rates))
+    queue_resample(run, drv, pending, case, out, draws_h, mags)
     check_calibration(run, drv, pending, case, raw)
 
 
 def flush(run, drv, pending):
     res = drv.run()
+    rl = run.extra.setdefault("resample_layer", dict(
+        note="Soft64 model of probs / numpy.random.choice / bin centres / numpy.histogram on the regenerated uniform "
+             "numbers against the recorded draws (statistic); centres_ok = decidable premise of resample_is_bincount",
+        cases=0, bitexact=0, centres_ok=0))
     for item in pending:
+        if item[0] == "resample":
+            _, case, i, hs = item
+            body, ok = res[i].split("|")
+            model = [[int(x) for x in h.split(",")] for h in body.split(";")] if body else []
+            rl["cases"] += 1
+            rl["bitexact"] += int(model == hs)
+            rl["centres_ok"] += int(ok == "true")
+            if ok != "true":
+                # a bin centre that numpy.histogram counts in ANOTHER bin: the resampled catalog would differ from the draw
+                run.mismatch(dict(case, op="c10_resample"), hs, res[i])
+            continue
         if item[0] == "calib":
             _, case, i, j, got, ks = item
             sel = [] if res[i] == "-" else res[i].split(",")
